@@ -22,7 +22,7 @@ pub fn run_line(line: &str) -> String {
     let cmd = toks[0];
     let mut t = tok::Toks::new(&toks[1..]);
     let result = std::panic::catch_unwind(std::panic::AssertUnwindSafe(|| match cmd {
-        1..=9 => codec::exec(cmd, &mut t),
+        1..=9 | 11 => codec::exec(cmd, &mut t),
         10 => sess::run(&mut t),
         _ => Err(tok::Bad("cmd")),
     }));
@@ -50,6 +50,7 @@ fn main() {
                 "reader" => gen_codec::reader_cases(&mut r, count),
                 "valid" => gen_codec::valid_table(),
                 "encode" => gen_codec::encode_cases(&mut r, count),
+                "reply" => gen_codec::reply_cases(&mut r, count),
                 s if s.starts_with("sweep_") => gen_sess::sess_sweep(&mut r, &s[6..], count),
                 s if s.starts_with("sess_") => gen_sess::sess_profile(&mut r, &s[5..], count),
                 _ => panic!("unknown suite"),
